@@ -1,9 +1,17 @@
 import Girc.Proofs.ProtocolA
 import Girc.Proofs.InvHandlers
+import Girc.Gen.Skel
+import Girc.Spec.Skeletons
 /- C17 — PING is answered, nick collisions are retried. Property theorems only. -/
 namespace Girc.Props.C17
 open Girc Girc.Model Girc.Spec
 open Girc.Proofs.ProtocolA
+
+/-- The keep-alive helpers go through `write` (never through `Send`, i.e. never through the flood
+    limiter), and the PING handler calls `Cmd.Pong` with the last parameter: the code the model's
+    `Out.write` stands for is the code in the tree (regenerated on every run). -/
+theorem skel_keepalive : Gen.skel_Cmd_Pong = Spec.Skel.skel_Cmd_Pong ∧ Gen.skel_Cmd_Ping = Spec.Skel.skel_Cmd_Ping ∧
+    Gen.skel_handlePING = Spec.Skel.skel_handlePING := by decide +kernel
 
 /-- For every PING — any token, any state, tracking on or off — the client writes exactly one PONG
     with the same token, through `write` (never through the flood limiter). -/
